@@ -89,6 +89,10 @@ Or(OA, OB) == (IF \E y \in B!ConsOf(OB) : y[5] = {} /\ y \notin A!ConsOf(OA) THE
       (IF \E y \in B!ConsOf(OB) : y[5] # {} /\ ~(y[5] \subseteq AltsOf(OA, y[1], y[2], y[3])) THEN {"C13.or.arms"} ELSE {}) \cup
       (IF \E x \in A!ConsOf(OA) : ~\E y \in B!ConsOf(OB) : y[1] = x[1] /\ y[2] = x[2] /\ y[3] = x[3] /\ (y = x \/ (y[5] # {} /\ A!VC(x[3], x[4]) = "nonliteral"))
        THEN {"C13.or.lost"} ELSE {}) \cup
+      \* the disjunction keeps the cardinality of the constraint it replaces ("only turns a single non-literal constraint into a
+      \* disjunction over the same alternatives")
+      (IF \E y \in B!ConsOf(OB) : y[5] # {} /\ ~\E x \in A!ConsOf(OA) : x[1] = y[1] /\ x[2] = y[2] /\ x[3] = y[3] /\ x[6] = y[6] /\ A!VC(x[3], x[4]) = "nonliteral"
+       THEN {"C13.or.card"} ELSE {}) \cup
       (IF {s.key : s \in OA} # {s.key : s \in OB} THEN {"C13.shapes"} ELSE {})
 
 \* ---- inverse (C14): a = inverse on, b = inverse off, c = inverse off on the reversed graph
